@@ -175,12 +175,9 @@ Definition writer_sites : list (string * okind) :=
     ("internal/token.updatePoPForRefreshedToken", KGrant);
     ("internal/authorize.authorizeAuthnSession", KSession);
     (* (internal/authorize.initAuthnSession is NOT a writer of shared memory: the first request of an authorization
-       works on a new session or on a copy of the pushed one - Model/AccessOwn.v, Props/C20.v pushed_session_*.)
-       Writers below internal/authorize.initAuth are named "<site>[initAuth]" by the dynamic check; the copy of the
-       pushed session is SHALLOW, its map-valued members stay shared with the stored session and with the copies
-       of other requests presenting the same request_uri: *)
-    ("pkg/goidc.(*AuthnSession).StoreParameter[initAuth]", KSession);
-    ("pkg/goidc.(*AuthnSession).SetIDTokenClaim[initAuth]", KSession);
+       works on a new session or on a copy of the pushed one - deep for the maps since fix e2b7ce4 (D24) -
+       Model/AccessOwn.v, Props/C20.v first_request_writes_no_shared_session.  Writers below
+       internal/authorize.initAuth are named "<site>[initAuth]" by the dynamic check: NONE is predicted.) *)
     (* the bytes of the authorization code: strutil.Random fills the buffer whose string authorizeAuthnSession
        then publishes with its unsynchronised assignment session.AuthCode = ... on the STORED session (callback
        path); a second callback finishing the same session reads them (redirect parameters, c_hash): the
